@@ -145,6 +145,62 @@ theorem responseData_some (mw : S_mainmw_Middleware) (ad : Bool) (rc : Int) (ipa
 
 example : (responseData ⟨none, none⟩ true true 3 ("192.0.2.1", none)).1 = 3 := by decide
 
+/-- For every non-negative `Msg.Rcode` — extended codes and values no message can carry included — the logged code
+is the hand model's `rcode16`: the `uint16` conversion, and no masking to the four header bits. -/
+theorem responseData_rcode_tr (mw : S_mainmw_Middleware) (ad : Bool) (rc : Nat) (ipa : String × Option String) :
+    (responseData mw true ad (rc : Int) ipa).1 = (Agd.Record.rcode16 rc : Nat) := by
+  unfold responseData goWrapU Agd.Record.rcode16
+  simp
+
+example : (responseData ⟨none, none⟩ true false 23 ("", none)).1 = 23 ∧ (responseData ⟨none, none⟩ true false 4095 ("", none)).1 = 4095 ∧
+    (responseData ⟨none, none⟩ true false 65539 ("", none)).1 = 3 := by decide
+
+/-! ## `ipFromHTTPSRRKV` -/
+
+/-- One HTTPS parameter: never a panic; a family is reported exactly for an `ipv4hint` / `ipv6hint` with at least
+one address, and then the address is the first hint; `e2` is the parameter's `Hint` list. -/
+theorem ipFromHTTPSRRKV_spec (is4 is6 : Bool) (hints : List (List Int)) :
+    ipFromHTTPSRRKV is4 hints is6 =
+      some (match hints with
+            | [] => (0, [])
+            | h :: _ => if is4 then (1, h) else if is6 then (2, h) else (0, [])) := by
+  cases is4 <;> cases is6 <;> cases hints <;> simp [ipFromHTTPSRRKV, goIndex?]
+
+/-- Against the hand model: the parameter decides the scan of `ipFromKVs` (a family is reported) exactly when the
+model's `KV` is a hint with a first address. -/
+theorem ipFromHTTPSRRKV_tr (kv : Agd.Record.KV) (hints : List (List Int))
+    (hlen : hints.length = match kv with | .hint4 hs => hs.length | .hint6 hs => hs.length | .other => 0) :
+    (∃ ip, ipFromHTTPSRRKV (kv matches .hint4 _) hints (kv matches .hint6 _) = some (0, ip)) ↔
+      ∀ r, Agd.Record.ipFromKVs (kv :: r) = Agd.Record.ipFromKVs r := by
+  rw [ipFromHTTPSRRKV_spec]
+  cases kv with
+  | other =>
+    simp at hlen
+    subst hlen
+    simp [Agd.Record.ipFromKVs]
+  | hint4 hs =>
+    cases hs with
+    | nil => simp at hlen; subst hlen; simp [Agd.Record.ipFromKVs]
+    | cons a t =>
+      cases hints with
+      | nil => simp at hlen
+      | cons h ht =>
+        simp
+        cases a
+        case addr => exact ⟨[], by simp [Agd.Record.ipFromKVs, Agd.Record.ipOfVal]⟩
+        all_goals exact ⟨[.hint4 [.addr]], by simp [Agd.Record.ipFromKVs, Agd.Record.ipOfVal]⟩
+  | hint6 hs =>
+    cases hs with
+    | nil => simp at hlen; subst hlen; simp [Agd.Record.ipFromKVs]
+    | cons a t =>
+      cases hints with
+      | nil => simp at hlen
+      | cons h ht =>
+        simp
+        cases a
+        case addr => exact ⟨[], by simp [Agd.Record.ipFromKVs, Agd.Record.ipOfVal]⟩
+        all_goals exact ⟨[.hint4 [.addr]], by simp [Agd.Record.ipFromKVs, Agd.Record.ipOfVal]⟩
+
 /-- Not NOERROR, or no / an unspecified address: "not applicable" (`QN`), and GeoIP is not consulted. -/
 theorem responseCountry_na (mw : S_mainmw_Middleware) (fctx : S_mainmw_filteringContext) (host ip : String) (rcode : Int)
     (unspec : Bool) (modReq : AbsPtr) (norm qname geo : String) (h : rcode ≠ 0 ∨ ip = "" ∨ unspec = true) :
